@@ -166,6 +166,18 @@ async def sc_online():
         left = len(others_running())
     if left or pr.peak > 3 or sema._value != 3:
         return {'what': 'OnlineBoundedGather2: %d task(s) running after exit, peak concurrency %d on Semaphore(3), value afterwards %d' % (left, pr.peak, sema._value), 'input': {'jobs': 10, 'cancelled': 1}}
+    # jobs submitted after an earlier one has finished (wait() on a subset, then more calls): the exit still waits for all
+    pr = Probe()
+    sema = asyncio.Semaphore(3)
+    async with sema:
+        async with U.OnlineBoundedGather2(sema) as pool2:
+            a = pool2.call(pr.work, 'a', 0.01)
+            pool2.call(pr.work, 'b', 0.2)
+            await pool2.wait([a])
+            pool2.call(pr.work, 'c', 0.01)
+        left = len(others_running())
+    if left:
+        return {'what': 'OnlineBoundedGather2: %d job(s) still running after the context exit (a finishes, then c is submitted while b runs: c took the place of b in the pending table)' % left, 'input': {'history': ['call a (10 ms)', 'call b (200 ms)', 'wait([a])', 'call c (10 ms)', 'exit']}}
     try:
         pool.call(pr.work, 'late')
         return {'what': 'OnlineBoundedGather2 accepts a job after shutdown?'} if pool._pending is None else None
